@@ -112,6 +112,8 @@ pub struct PgSession {
     pub pid: i32,
     pub txn: u8,
     pub copy_in: Option<(bool, usize)>, // (started by simple protocol, bytes received)
+    /// statements of the simple-protocol message that follow the COPY FROM STDIN in progress
+    pub copy_rest: Vec<String>,
     pub ext_error: bool,
     pub in_ext_batch: bool,
     defaults: BTreeMap<String, String>,
@@ -140,6 +142,7 @@ impl PgSession {
             pid,
             txn: b'I',
             copy_in: None,
+            copy_rest: Vec::new(),
             ext_error: false,
             in_ext_batch: false,
             defaults: server_defaults(),
@@ -290,13 +293,14 @@ impl PgSession {
                     self.copy_in = None;
                     out.push(proto::command_complete(&format!("COPY {}", bytes)));
                     if simple {
-                        self.end_implicit(false);
-                        self.ready(&mut out);
+                        let rest = std::mem::take(&mut self.copy_rest);
+                        self.run_statements(rest, seq, cancelled, &mut out);
                     }
                     return Outcome { msgs: out, close };
                 }
                 b'f' => {
                     self.copy_in = None;
+                    self.copy_rest.clear();
                     let mut r = Reader::new(&m.body);
                     let why = r.cstr().unwrap_or_default();
                     self.err(&mut out, "57014", &format!("COPY from stdin failed: {}", why));
@@ -430,9 +434,15 @@ impl PgSession {
             }
         }
         self.begin_implicit();
+        self.run_statements(stmts, seq, cancelled, out);
+    }
+
+    /// The statements of one simple-protocol message, one after the other; a COPY FROM STDIN
+    /// suspends the message until the copy ends, then the rest runs (as in PostgreSQL).
+    fn run_statements(&mut self, stmts: Vec<String>, seq: u64, cancelled: bool, out: &mut Vec<Msg>) {
         let mut failed = false;
         let mut cancelled = cancelled;
-        for s in &stmts {
+        for (i, s) in stmts.iter().enumerate() {
             let idx = self.record(seq, s, Via::Simple, "", &[], &[]);
             let c = cancelled && sqlmini::has_directive(s, "sim_sleep");
             if c {
@@ -444,6 +454,7 @@ impl PgSession {
                     if self.copy_in.is_some() {
                         // COPY FROM STDIN: the rest of the message is not executed until the copy ends
                         self.copy_in = Some((true, 0));
+                        self.copy_rest = stmts[i + 1..].to_vec();
                         return;
                     }
                 }
